@@ -86,3 +86,44 @@ Print Assumptions C16_hll.
 Print Assumptions C16_cuckoo_refuted.
 Print Assumptions C16_topk_refuted.
 Print Assumptions C16_cuckoo_room_for_both.
+
+(* Top-K, the regime in which the clause holds: two clients insert two different, not yet tracked
+   elements concurrently (each insert = its separate Redis round trips), under ANY schedule. If the
+   sorted set has room for both (size + 2 <= k), nothing is popped or removed: every tracked entry
+   stays, each client that obtained a count ends up tracked (result 1), and the set grows by exactly
+   the number of such clients. Nothing is assumed about the sketch (the counts read may be anything);
+   the complement of the double-ZPOPMIN witness above. *)
+From GX.Proofs Require TopKInv TopKConc RedisProofs.
+From Coq Require Import Lia ZifyN ZifyNat.
+Theorem C16_topk_room_for_both : forall (cpos : N -> N -> bytes -> list N) t,
+  (forall r, row_key (rc_key (rt_sketch t)) r <> rt_heap t) ->
+  forall sched fuel s x cx y cy,
+  (8 <= fuel)%nat -> x <> y ->
+  NoDup (TopKInv.names (r_zset s (rt_heap t))) ->
+  ~ In x (TopKInv.names (r_zset s (rt_heap t))) -> ~ In y (TopKInv.names (r_zset s (rt_heap t))) ->
+  (length (r_zset s (rt_heap t)) + 2 <= N.to_nat (rt_k t))%nat ->
+  exists s' ra rb,
+    interleave sched fuel (topk_insert_prog cpos t x cx) (topk_insert_prog cpos t y cy) s = (s', Some ra, Some rb) /\
+    let z' := r_zset s' (rt_heap t) in
+    NoDup (TopKInv.names z') /\ incl (r_zset s (rt_heap t)) z' /\
+    length z' = (length (r_zset s (rt_heap t)) + TopKConc.b2n (N.eqb ra 1) + TopKConc.b2n (N.eqb rb 1))%nat /\
+    (In x (TopKInv.names z') <-> ra = 1) /\ (In y (TopKInv.names z') <-> rb = 1).
+Proof. exact TopKConc.concurrent_inserts_with_room. Qed.
+Print Assumptions C16_topk_room_for_both.
+
+(* non-vacuity: a new Top-K (k = 3) on fresh keys, two different elements, one concrete alternating
+   schedule evaluated: both clients return 1 and both elements are tracked afterwards *)
+Example C16_topk_room_premises_hold :
+  let r := rtopk_new [] 3 2 3 0 0 [48] [48] k_a k_m k_b k_n in
+  exists t, fst r = Ok t /\
+    (forall q, row_key (rc_key (rt_sketch t)) q <> rt_heap t) /\
+    r_zset (snd r) (rt_heap t) = [] /\ (0 + 2 <= N.to_nat (rt_k t))%nat /\
+    let '(s', ra, rb) := interleave [true; false; true; false; true; false; true; false; true; false; true; false; true; false] 9
+                           (topk_insert_prog cpos1 t [1] 5) (topk_insert_prog cpos1 t [2] 7) (snd r) in
+    ra = Some 1 /\ rb = Some 1 /\ map fst (r_zset s' (rt_heap t)) = [[1]; [2]].
+Proof.
+  cbv zeta. eexists. split; [vm_compute; reflexivity|]. split.
+  - intros q E. apply (f_equal (@length N)) in E. cbn [rt_sketch rt_heap rc_key] in E. unfold row_key in E.
+    rewrite app_length in E. pose proof (RedisProofs.dec_nonempty q). destruct (dec q); [contradiction|]. cbn in E. lia.
+  - split; [vm_compute; reflexivity|]. split; [vm_compute; lia|]. vm_compute. repeat split; reflexivity.
+Qed.
